@@ -558,11 +558,6 @@ def oracle_stage(inp, out, err, freq, wellformed):
     return None
 
 
-def placement(out):
-    """uid -> (ts, dur) and the emitted order, for paired-run comparison"""
-    return [(e["vuid"], rat(e["ts"]) if "ts" in e else None, rat(e["dur"]) if "dur" in e else None) for e in out]
-
-
 def oracle_pair_stage(case, r, K):
     """prefix + real stage on the scenario and on its epoch-shifted twin; identical placement expected"""
     res = []
@@ -583,9 +578,6 @@ def oracle_pair_stage(case, r, K):
         what = f"{len(diff)} slices placed differently, e.g. {diff[:2]}" if diff else "same placement, different emitted order"
         return ("mp-sync-epoch-dependent", f"adding {K} cycles to all counters of rank {r} changes the aligned output: {what}")
     return None
-
-
-SCRATCH_ARGS = {"TS1", "TS2", "TS3", "TS4", "TS5", "true_TS", "OVC", "jobhash", "jobname"}
 
 
 def export_view(events):
